@@ -4,7 +4,7 @@
    queued Message can be delivered, and a shutdown (NULL Message queued) can always run to completion -- no reachable
    state is a trap.  (The safety-form theorems of ThreadQProofs say a step is enabled; this says the steps lead
    somewhere, by a measure that every such step decreases.)  StartInternalThread as repaired. *)
-From Coq Require Import List Arith Bool Lia.
+From Coq Require Import List Arith Bool Lia NArith.
 From Muscle Require Import Conc.ThreadQ Conc.ThreadQWf Conc.ThreadQWake Conc.ThreadQProofs.
 Import ListNotations.
 
@@ -12,13 +12,15 @@ Ltac inv H := inversion H; subst; clear H.
 
 Section Progress.
 Variable absorb_n : nat.
+Variable no_limit : N.
 Variable react : nat -> list msg * bool.
+Hypothesis Hnl : (0 < no_limit)%N.
 Variables smode emode : bool.
 
-Notation Step := (Step false absorb_n react).
-Notation step := (step false absorb_n react).
-Notation sys_step := (sys_step false absorb_n react).
-Notation R := (reachable_if false absorb_n react any_label smode emode).
+Notation Step := (Step false absorb_n no_limit react).
+Notation step := (step false absorb_n no_limit react).
+Notation sys_step := (sys_step false absorb_n no_limit react).
+Notation R := (reachable_if false absorb_n no_limit react any_label smode emode).
 
 (* ---------- the measure ---------- *)
 
@@ -86,7 +88,7 @@ Inductive canreach (P : sys -> Prop) : sys -> Prop :=
 Lemma canreach_weaken : forall (P Q : sys -> Prop) s, (forall x, P x -> Q x) -> canreach P s -> canreach Q s.
 Proof. intros P Q s H C. induction C; [apply cr_here; auto | eapply cr_step; eauto]. Qed.
 
-Lemma canreach_steps : forall P s, canreach P s -> exists s', steps_if false absorb_n react any_label s s' /\ P s'.
+Lemma canreach_steps : forall P s, canreach P s -> exists s', steps_if false absorb_n no_limit react any_label s s' /\ P s'.
 Proof.
   intros P s C. induction C.
   - exists s. split; [apply steps_refl | assumption].
@@ -115,7 +117,7 @@ Qed.
 Ltac destr_k k := destruct k as [|[] [|? ?]]; try contradiction.
 
 Ltac sig_frame Hs :=
-  let F := fresh "F" in pose proof (signal_frame _ _ _ _ Hs) as F;
+  let F := fresh "F" in pose proof (signal_frame _ _ _ _ _ Hs) as F;
   destruct F as (F1 & F2 & F3 & F4 & F5 & F6 & F7 & F8 & F9 & F10 & F11 & F12).
 
 Lemma W_next_reply : forall sk evd rs qt p k' e' q,
@@ -132,12 +134,12 @@ Lemma int_progress : forall s, wf smode emode s -> g_ist (s_g s) = ILive -> bloc
     (g_ist (s_g s') = IExited \/ drained s' \/ (g_ist (s_g s') = ILive /\ mu s' < mu s)).
 Proof.
   intros s W0 Hl Hb.
-  destruct (step_enabled false absorb_n react _ _ Hb) as [[[g' l'] e] Hx].
+  destruct (step_enabled false absorb_n no_limit react _ _ Hb) as [[[g' l'] e] Hx].
   exists (mkS (set_il l' g') (s_l s)), e. split; [simpl; rewrite Hl, Hx; reflexivity|].
   pose proof (wf_ipc _ _ _ W0 Hl) as Hi.
   pose proof (wf_live_sock _ _ _ W0 Hl) as Hsock.
   apply step_spec in Hx.
-  pose proof (Step_const _ _ _ _ _ _ _ _ _ Hx) as [Hc1 Hc2].
+  pose proof (Step_const _ _ _ _ _ _ _ _ _ _ Hx) as [Hc1 Hc2].
   unfold drained, mu. simpl.
   assert (Hpen0 : forall l g, will_look (g_evd g) (l_pc l) = true -> pen (mkS (set_il l g) (s_l s)) = 0)
     by (intros l g H; apply pen_zero; exact H).
@@ -151,7 +153,7 @@ Proof.
     right; right. split; [exact Hl|]. rewrite Hpen0 by reflexivity. unfold W, wloop, final; simpl; lia.
   - (* 2: its signal *)
     destruct x; try contradiction. destr_k k.
-    match goal with Hs : signal _ _ = _ |- _ => sig_frame Hs end.
+    match goal with Hs : signal _ _ _ = _ |- _ => sig_frame Hs end.
     match goal with Hr : ret _ _ _ _ = _ |- _ => simpl in Hr; rename Hr into HR end.
     right; right. split; [congruence|].
     rewrite Hpen0 by (eapply next_reply_looks; exact HR).
@@ -233,12 +235,12 @@ Proof.
     + pose proof (Hpen1 (mkL PIAfterStartup k) (s_g s)) as HP. rewrite ?Ee in HP; simpl in HP. specialize (HP eq_refl (fun h => h)). unfold W, wloop, final; simpl; lia.
     + rewrite Hpen0 by (rewrite ?Ee; reflexivity). unfold W, wloop, final; simpl; lia.
   - (* 15: the start-up signal to the owner *)
-    match goal with Hs : signal _ _ = _ |- _ => pose proof Hs as Hsig; sig_frame Hs end.
+    match goal with Hs : signal _ _ _ = _ |- _ => pose proof Hs as Hsig; sig_frame Hs end.
     right; right. split; [congruence|].
     destruct (F9 CI) as (Q & _). simpl in Q. rewrite Q, F1, F2.
     destruct (g_evd (s_g s)) eqn:Ee.
     + pose proof (Hpen1 (mkL PIAfterStartup k) g') as HP. rewrite ?Ee in HP; simpl in HP.
-      specialize (HP eq_refl (fun h => signal_readable_mono _ _ _ _ _ Hsig h)). unfold W, wloop, final; simpl; lia.
+      specialize (HP eq_refl (fun h => signal_readable_mono _ _ _ _ _ _ Hnl Hsig h)). unfold W, wloop, final; simpl; lia.
     + rewrite Hpen0 by (rewrite ?F2, ?Ee; reflexivity). unfold W, wloop, final; simpl; lia.
   - (* 16 *)
     right; right. split; [exact Hl|].
@@ -291,7 +293,7 @@ Proof.
   assert (Hu : exists u, is_pend_i (l_pc (s_l s u)) = true /\ (is_pend_i (l_pc (s_l s 0)) = true -> u = 0)).
   { destruct (is_pend_i (l_pc (s_l s 0))) eqn:E0; [exists 0; auto | exists t0; split; [exact Pt0 | discriminate]]. }
   destruct Hu as (u & Pu & Hu0).
-  destruct (step_enabled false absorb_n react _ _ (pend_i_unblocked (s_g s) _ Pu)) as [[[g' l'] e] Hx].
+  destruct (step_enabled false absorb_n no_limit react _ _ (pend_i_unblocked (s_g s) _ Pu)) as [[[g' l'] e] Hx].
   exists u, (mkS g' (upd (s_l s) u l')), e.
   split; [exact Pu|]. split; [simpl; rewrite Hx; reflexivity|].
   apply step_spec in Hx.
@@ -304,11 +306,11 @@ Proof.
   - (* a sender that appended to the empty queue *)
     destruct c; try discriminate. destruct first; try discriminate.
     inversion Hx; subst; clear Hx.
-    match goal with Hs : signal _ _ = _ |- _ => pose proof Hs as Hsig; apply signal_frame in Hs;
+    match goal with Hs : signal _ _ _ = _ |- _ => pose proof Hs as Hsig; apply signal_frame in Hs;
       destruct Hs as (F1 & F2 & F3 & F4 & F5 & F6 & F7 & F8 & F9 & F10 & F11 & F12) end.
     split; [congruence|].
     rewrite F1, F2, F7. destruct (F9 CI) as (Q & _). simpl in Q. rewrite Q. rewrite Hw.
-    rewrite (signal_CI_readable _ _ _ Hsig) by (intros Hs; apply Hsock; exact Hs). lia.
+    rewrite (signal_CI_readable _ _ _ _ Hnl Hsig) by (intros Hs; apply Hsock; exact Hs). lia.
   - (* StartInternalThread, the thread created *)
     assert (u = 0) by (unfold upc_ok in Hup; simpl in Hup; destruct k; [exact Hup | contradiction]). subst u.
     inversion Hx; subst; clear Hx. split; [exact Hl|].
@@ -321,11 +323,11 @@ Proof.
   - (* ... about to send the initial signal *)
     destruct needs; try discriminate.
     inversion Hx; subst; clear Hx.
-    match goal with Hs : signal _ _ = _ |- _ => pose proof Hs as Hsig; apply signal_frame in Hs;
+    match goal with Hs : signal _ _ _ = _ |- _ => pose proof Hs as Hsig; apply signal_frame in Hs;
       destruct Hs as (F1 & F2 & F3 & F4 & F5 & F6 & F7 & F8 & F9 & F10 & F11 & F12) end.
     split; [congruence|].
     rewrite F1, F2, F7. destruct (F9 CI) as (Q & _). simpl in Q. rewrite Q. rewrite Hw.
-    rewrite (signal_CI_readable _ _ _ Hsig) by (intros Hs; apply Hsock; exact Hs). lia.
+    rewrite (signal_CI_readable _ _ _ _ Hnl Hsig) by (intros Hs; apply Hsock; exact Hs). lia.
 Qed.
 
 Lemma blocked_drained : forall s, wf smode emode s -> g_ist (s_g s) = ILive ->
@@ -340,8 +342,8 @@ Theorem can_drain : forall s, R s -> g_ist (s_g s) = ILive -> canreach (fun s' =
 Proof.
   intros s. remember (mu s) as n eqn:En. revert s En.
   induction n as [n IH] using lt_wf_ind. intros s En Rs Hl.
-  pose proof (reachable_wf false absorb_n react any_label smode emode s Rs) as W0.
-  pose proof (reachable_wake absorb_n react any_label smode emode s Rs) as Wk.
+  pose proof (reachable_wf false absorb_n no_limit react any_label smode emode s Rs) as W0.
+  pose proof (reachable_wake absorb_n no_limit react Hnl any_label smode emode s Rs) as Wk.
   destruct (blocked (s_g s) (g_il (s_g s))) eqn:Hb.
   - destruct (c_q (g_ci (s_g s))) as [|m0 q0] eqn:Eq.
     + apply cr_here. split; [exact Rs | eapply blocked_drained; eauto].
@@ -373,7 +375,7 @@ Proof.
   intros s t g' l' e W0 Pt Hx.
   destruct (s_l s t) as [p k] eqn:El. simpl in Pt.
   destruct p; try discriminate; inversion Hx; subst; clear Hx; auto; try discriminate.
-  all: match goal with Hs : signal _ _ = _ |- _ => apply signal_frame in Hs;
+  all: match goal with Hs : signal _ _ _ = _ |- _ => apply signal_frame in Hs;
          destruct Hs as (_ & _ & _ & _ & _ & F6 & F7 & _ & F9 & _); destruct (F9 CI) as (Q1 & Q2 & _); simpl in Q1, Q2; auto end.
 Qed.
 
@@ -396,7 +398,7 @@ Proof.
     all: try (destruct x; simpl in Hi; try contradiction).
     all: try (destruct G' as [A | B]; [left; simpl; exact A | simpl in B; try discriminate]; fail).
     + destruct G' as [A | B]; [|simpl in B; discriminate]. left.
-      match goal with Hs : signal _ _ = _ |- _ => apply signal_frame in Hs; destruct Hs as (_&_&_&_&_&_&_&_&F9&_) end.
+      match goal with Hs : signal _ _ _ = _ |- _ => apply signal_frame in Hs; destruct Hs as (_&_&_&_&_&_&_&_&F9&_) end.
       destruct (F9 CI) as (Q & _). simpl in Q. rewrite Q. exact A.
     + destruct G' as [A | B]; [|simpl in B; discriminate]. left.
       pose proof (absorb_frame absorb_n CI (s_g s)) as F. simpl in F. destruct F as (_&_&_&_&_&_&_&_&F9&_).
@@ -409,7 +411,7 @@ Proof.
       match goal with Hr : ret _ _ _ _ = _ |- _ => simpl in Hr; inv Hr end.
       right. left. split; [exact Hl | reflexivity].
     + destruct G' as [A | B]; [|simpl in B; discriminate]. left.
-      match goal with Hs : signal _ _ = _ |- _ => apply signal_frame in Hs; destruct Hs as (_&_&_&_&_&_&_&_&F9&_) end.
+      match goal with Hs : signal _ _ _ = _ |- _ => apply signal_frame in Hs; destruct Hs as (_&_&_&_&_&_&_&_&F9&_) end.
       destruct (F9 CI) as (Q & _). simpl in Q. rewrite Q. exact A.
     + right. right. reflexivity.
   - (* a signaller *)
@@ -462,7 +464,7 @@ Proof.
     apply step_spec in Hst. pose proof (wf_ipc _ _ _ W0 Hl) as Hi. simpl.
     destruct (g_il (s_g s)) as [p k] eqn:El.
     inversion Hst; subst; clear Hst; unfold ipc_ok in Hi; simpl in Hi; try contradiction; auto;
-      try (match goal with Hs : signal _ _ = _ |- _ => apply signal_frame in Hs; destruct Hs as (_&_&_&_&_&_&_&_&F9&_);
+      try (match goal with Hs : signal _ _ _ = _ |- _ => apply signal_frame in Hs; destruct Hs as (_&_&_&_&_&_&_&_&F9&_);
              destruct (F9 CI) as (_ & Q & _); simpl in Q; exact Q end);
       try (destruct x; simpl in Hi; try contradiction; try (destruct m; contradiction); reflexivity).
     + pose proof (absorb_frame absorb_n x (s_g s)) as F. simpl in F. destruct F as (_&_&_&_&_&_&_&_&F9&_).
@@ -489,22 +491,22 @@ Proof.
   apply (canreach_carry Inv) in C; auto.
   - eapply canreach_weaken; [|exact C]. intros x (Rx & D & (Sx & b & Bx)). split; [exact Rx|].
     exists b. split; [exact Bx|].
-    pose proof (reachable_fifo _ _ _ _ _ _ _ Rs CI) as F. pose proof (reachable_fifo _ _ _ _ _ _ _ Rx CI) as F'.
+    pose proof (reachable_fifo _ _ _ _ _ _ _ _ Rs CI) as F. pose proof (reachable_fifo _ _ _ _ _ _ _ _ Rx CI) as F'.
     simpl in F, F'. rewrite Sx, Bx, F in F'. rewrite <- app_assoc in F'. apply app_inv_head in F'.
     split; [symmetry; exact F'|].
     destruct D as [E | (_ & Qx & _)]; auto.
   - unfold Inv. intros x lab x' ev Rx (Sx & b & Bx) Hh Hs. split.
     + rewrite <- Sx. eapply helper_keeps_sent; eauto. eapply reachable_wf; eauto.
-    + destruct (sys_step_hist _ _ _ _ _ _ _ Hs) as [_ E]. destruct (E CI) as (a1 & b1 & _ & Eb). simpl in Eb.
+    + destruct (sys_step_hist _ _ _ _ _ _ _ _ Hs) as [_ E]. destruct (E CI) as (a1 & b1 & _ & Eb). simpl in Eb.
       exists (b ++ b1). rewrite Eb, Bx, app_assoc. reflexivity.
   - unfold Inv. split; [reflexivity | exists []; rewrite app_nil_r; reflexivity].
 Qed.
 
 End Progress.
 
-Example ex_null_seen : forall n, exists s, reachable_if false n react0 any_label true false s /\
+Example ex_null_seen : forall n nl, exists s, reachable_if false n nl react0 any_label true false s /\
   g_ist (s_g s) = ILive /\ null_seen s.
 Proof.
-  intros n. destruct (ex_shutdown_waiting n) as (s & Rs & _ & _ & Hl & Hq).
+  intros n nl. destruct (ex_shutdown_waiting n nl) as (s & Rs & _ & _ & Hl & Hq).
   exists s. split; [exact Rs|]. split; [exact Hl|]. left. rewrite Hq. left. reflexivity.
 Qed.
